@@ -567,9 +567,14 @@ class Evaluator:
         if name == "isinstance" and len(e.args) == 2:
             v = self.ev(e.args[0], f)
             types = ast.unparse(e.args[1])
-            kinds = {"int": int, "float": float, "list": list, "tuple": tuple, "str": str, "dict": dict, "bool": bool, "slice": slice}
+            kinds = {"int": int, "float": float, "list": list, "tuple": tuple, "str": str, "dict": dict, "bool": bool, "slice": slice, "torch.Tensor": Vec1, "Tensor": Vec1}
             if isinstance(v, slice):
                 return "slice" in types
+            toks = types.replace("(", " ").replace(")", " ").replace(",", " ").split()
+            if isinstance(v, (RF, Term)) and toks and all(t in ("list", "tuple", "dict", "torch.Tensor", "Tensor", "str", "slice") for t in toks):
+                return False  # a symbolic scalar is no container
+            if isinstance(v, Vec1) and toks and all(t in kinds for t in toks):
+                return any(t in ("torch.Tensor", "Tensor") for t in toks)
             named = [k for k in kinds if k in types.replace("(", " ").replace(")", " ").replace(",", " ").split()]
             if isinstance(v, (int, float, str, dict, bool)) or (isinstance(v, (list, tuple)) and not isinstance(v, Vec1)):
                 if all(t in kinds for t in types.replace("(", " ").replace(")", " ").replace(",", " ").split()):
